@@ -149,6 +149,251 @@ def run_case(ctx, rng, idx):
         ctx.sample({"type": node.src, "data": [lbl for lbl, _, _ in bag][:10]})
     check(ctx, node, prog, values, bag)
     ill_typed_dump(ctx, rng, node, prog)
+    broken_value_dump(ctx, rng, node, prog, values)
+    optional_field_dumper_raises(ctx, rng)
+    for _ in range(3):
+        run_user_code_case(ctx, rng)
+
+
+# ---- dumping broken values: valid values with one position deleted or replaced ---------------------------------------------------
+_DEL = object()
+
+
+def _children(x):
+    from ..eq import model_fields  # noqa: PLC0415
+
+    if isinstance(x, dict):
+        return [("k", k, v) for k, v in x.items()]
+    if isinstance(x, (list, tuple)):
+        return [("i", i, v) for i, v in enumerate(x)]
+    f = model_fields(x)
+    if f is not None:
+        return [("a", k, v) for k, v in f.items()]
+    return []
+
+
+def _set_child(x, kind, key, value):
+    import copy  # noqa: PLC0415
+
+    if kind == "k":
+        y = copy.copy(x)
+        if value is _DEL:
+            del y[key]
+        else:
+            y[key] = value
+        return y
+    if kind == "i":
+        items = list(x)
+        if value is _DEL:
+            del items[key]
+        else:
+            items[key] = value
+        if isinstance(x, list):
+            return type(x)(items)
+        return type(x)(*items) if hasattr(type(x), "_fields") else tuple(items)
+    y = copy.copy(x)
+    if value is _DEL:
+        object.__delattr__(y, key)
+    else:
+        object.__setattr__(y, key, value)
+    return y
+
+
+def _mutate(rng, x, depth=0):
+    """One position of x deleted or replaced by an ill-typed value (functional: x itself is not touched). LookupError if x has no positions."""
+    ch = _children(x)
+    if not ch:
+        raise LookupError
+    kind, key, v = rng.choice(ch)
+    if depth < 4 and _children(v) and rng.random() < 0.6:
+        return _set_child(x, kind, key, _mutate(rng, v, depth + 1))
+    repl = rng.choice([_DEL, _DEL, None, "a", 1, 1.5, True, [], {}, (), object(), b"x", [None], {"a": 1}])
+    return _set_child(x, kind, key, repl)
+
+
+def broken_value_dump(ctx, rng, node, prog, values):
+    """The three dumper programs agree on whether a *broken* value (missing key / attribute, ill-typed field deep inside) can be dumped
+    and on the result (seeded change: DISABLE swallowing a KeyError raised inside an optional field's dumper)."""
+    for i, x in enumerate(values):
+        for j in range(6):
+            try:
+                y = _mutate(rng, x)
+            except LookupError:
+                break
+            except Exception:  # noqa: BLE001
+                ctx.count("broken_value_not_buildable")
+                continue
+            r = compare(ctx, node, f"broken#{i}.{j}", (lambda y=y: y), False, True, prog.dumpers, "dump")
+            ctx.count("broken_value_dumps")
+            if r is not None:
+                mis, outs = r
+                ctx.violation(f"dump-broken:{mis}:{node.kind}", f"dump {node.src} <- broken value {y!r:.200}: " + "; ".join(f"{dt.name}={o!r:.160}" for dt, o in outs.items()),
+                              {"type": node.src, "value": repr(y)[:400], "outcomes": {dt.name: repr(o)[:300] for dt, o in outs.items()}})
+
+
+def optional_field_dumper_raises(ctx, rng):
+    """An optional (NotRequired) TypedDict key that is PRESENT and whose own dumper raises - in particular the very exception class the
+    accessor uses for 'key absent' (KeyError): nested TypedDict lacking a required key, user dumper doing a dict lookup."""
+    import typing as t  # noqa: PLC0415
+
+    from adaptix import Retort, dumper  # noqa: PLC0415
+
+    exc_cls = rng.choice([KeyError, KeyError, LookupError, ValueError, AttributeError, IndexError, TypeError])
+    codes = {1: "one"}
+
+    def int_dumper(v):
+        if v == 13:
+            raise exc_cls(v)
+        return codes.get(v, v)
+    Inner = t.TypedDict("Inner", {"x": int, "y": t.NotRequired[int]})
+    shapes = {
+        "inner": (t.NotRequired[Inner], {"x": 1}, [{}, {"y": 2}, {"x": 13}]),
+        "items": (t.NotRequired[t.List[Inner]], [{"x": 1}], [[{}], [{"x": 1}, {"y": 1}], [{"x": 13}]]),
+        "by_key": (t.NotRequired[t.Dict[str, Inner]], {"k": {"x": 1}}, [{"k": {}}, {"k": {"x": 13}}]),
+        "maybe": (t.NotRequired[t.Optional[Inner]], None, [{}, {"y": 1}]),
+        "num": (t.NotRequired[int], 2, [13]),
+        "pair": (t.NotRequired[t.Tuple[Inner, int]], ({"x": 1}, 2), [({}, 2), ({"x": 13}, 2)]),
+    }
+    names = rng.sample(sorted(shapes), rng.randint(1, 3))
+    Outer = t.TypedDict("Outer", {"name": str, **{n: shapes[n][0] for n in names}})
+    hint = rng.choice([Outer, t.List[Outer], t.Dict[str, Outer], t.Optional[Outer]])
+    fns = {dt: Retort(debug_trail=dt, recipe=[dumper(int, int_dumper)]).get_dumper(hint) for dt in DEBUG_MODES}
+    ctx.count("optional_dumper_programs")
+    for n in names:
+        for bad in shapes[n][2]:
+            value = {"name": "n", **{m: shapes[m][1] for m in names}, n: bad}
+            wrapped = value if hint is Outer or t.get_origin(hint) is t.Union else ([value] if t.get_origin(hint) is list else {"k": value})
+            outs = {dt: attempt(fns[dt], wrapped) for dt in DEBUG_MODES}
+            ctx.evaluated(("optional-dumper", repr(hint)[:80], tuple(names), n, repr(bad), exc_cls.__name__), nontrivial=True)
+            ctx.count("triples")
+            ctx.count("optional_dumper_triples")
+            ok = {dt: o.kind == "ok" for dt, o in outs.items()}
+            info = {"type": repr(hint)[:200], "value": repr(wrapped)[:300], "outcomes": {dt.name: repr(o)[:300] for dt, o in outs.items()}}
+            if len(set(ok.values())) > 1:
+                ctx.violation("dump-broken:success-disagreement:optional-field-dumper-raises", f"dump {wrapped!r:.200} (field {n}, user dumper raises {exc_cls.__name__} for 13): "
+                              + "; ".join(f"{dt.name}={o!r:.120}" for dt, o in outs.items()), info)
+            elif all(ok.values()) and not all(strict_eq(outs[dt].value, outs[DebugTrail.ALL].value) for dt in DEBUG_MODES):
+                ctx.violation("dump-broken:result-mismatch:optional-field-dumper-raises", f"dump {wrapped!r:.200}: " + "; ".join(f"{dt.name}={o!r:.120}" for dt, o in outs.items()), info)
+            if not all(ok.values()):
+                ctx.count("failing_triples")
+
+
+# ---- user code that raises (recipes with loaders / validators, constructors that refuse) ------------------------------------------
+class _Boom(Exception):
+    pass
+
+
+def _user_programs(rng):
+    """(hint, recipe, good datum, poisoned data) where user-supplied code raises a NON-LoadError (or a LoadError of its own) for
+    particular values: constructors (__post_init__), loader(...) functions, validators. The poisoned value sits where another union
+    case / container sibling could still accept the datum, so that a mode that loses the 'unexpected' mark changes acceptance."""
+    import typing as t  # noqa: PLC0415
+    from dataclasses import dataclass, make_dataclass  # noqa: PLC0415
+
+    from adaptix import P, loader, validator  # noqa: PLC0415
+    from adaptix.load_error import ValueLoadError  # noqa: PLC0415
+
+    exc_cls = rng.choice([ValueError, TypeError, KeyError, _Boom, ZeroDivisionError, AttributeError, LookupError])
+
+    def post_init(self):
+        if self.lo > self.hi:
+            raise exc_cls("lo must not exceed hi")
+    Range = make_dataclass("Range", [("lo", int), ("hi", int)], namespace={"__post_init__": post_init})
+    Job = make_dataclass("Job", [("span", Range), ("tag", str, "t")])
+    Leaf = make_dataclass("Leaf", [("n", int), ("s", str, "")])
+    Outer = make_dataclass("Outer", [("leaf", Leaf), ("leaves", t.List[Leaf], ())])
+
+    def int_loader(v):
+        if v == "boom":
+            raise exc_cls("user loader refuses")
+        if v == "mild":
+            raise ValueLoadError("user load error", v)
+        return int(v)
+    how = rng.choice(["constructor", "loader", "validator-raising", "loader-in-list"])
+    if how == "constructor":
+        model, recipe, good, bad = Job, [], {"span": {"lo": 1, "hi": 2}}, {"span": {"lo": 5, "hi": 1}}
+        alt = t.Dict[str, t.Dict[str, int]]
+    elif how == "loader":
+        model, recipe, good, bad = Leaf, [loader(int, int_loader)], {"n": 1}, {"n": "boom"}
+        alt = t.Dict[str, str]
+    elif how == "validator-raising":
+        def check(x):
+            if x == 13:
+                raise exc_cls("validator itself crashed")
+            return x >= 0
+        model, recipe, good, bad = Leaf, [validator(P[Leaf].n, check, "must be non-negative")], {"n": 1}, {"n": 13}
+        alt = t.Dict[str, int]
+    else:
+        model, recipe, good, bad = Outer, [loader(int, int_loader)], {"leaf": {"n": 1}, "leaves": [{"n": 2}]}, {"leaf": {"n": 1}, "leaves": [{"n": 2}, {"n": "boom"}]}
+        alt = t.Dict[str, t.Any]
+    wrappers = [
+        ("union-first", lambda m: t.Union[m, alt], lambda d: d),
+        ("union-last", lambda m: t.Union[t.List[int], m], lambda d: d),
+        ("plain", lambda m: m, lambda d: d),
+        ("list", lambda m: t.List[m], lambda d: [good, d]),
+        ("dict-value", lambda m: t.Dict[str, m], lambda d: {"a": good, "b": d}),
+        ("optional", lambda m: t.Optional[m], lambda d: d),
+        ("tuple", lambda m: t.Tuple[m, int], lambda d: [d, 1]),
+        ("union-of-containers", lambda m: t.Union[t.List[m], t.List[alt]], lambda d: [d]),
+        ("model-field-union", None, None),
+    ]
+    name, mk, wrap = rng.choice(wrappers)
+    if mk is None:
+        Holder = make_dataclass("Holder", [("f", t.Union[model, alt]), ("g", int, 0)])
+        hint, wrap = Holder, (lambda d: {"f": d})
+    else:
+        hint = mk(model)
+    data = [("good", wrap(good)), ("poisoned", wrap(bad))]
+    if how in ("loader", "loader-in-list"):
+        data.append(("mild", wrap({"n": "mild"} if how == "loader" else {"leaf": {"n": "mild"}, "leaves": []})))
+        data.append(("poisoned+type-error", wrap({"n": "boom", "s": 5} if how == "loader" else {"leaf": {"n": "boom", "s": 5}, "leaves": [{"n": []}]})))
+    return f"{how}/{name}/{exc_cls.__name__}", hint, recipe, data, exc_cls
+
+
+def _all_nodes(e):
+    yield e
+    for s in getattr(e, "exceptions", None) or ():
+        yield from _all_nodes(s)
+
+
+def run_user_code_case(ctx, rng):
+    from adaptix import Retort  # noqa: PLC0415
+
+    desc, hint, recipe, data, exc_cls = _user_programs(rng)
+    for sc in (True, False):
+        try:
+            fns = {dt: Retort(debug_trail=dt, strict_coercion=sc, recipe=recipe).get_loader(hint) for dt in DEBUG_MODES}
+        except Exception:  # noqa: BLE001
+            ctx.count("user_code_creation_errors")
+            return
+        ctx.count("user_code_programs")
+        for label, d in data:
+            outs = {dt: attempt(fns[dt], d) for dt in DEBUG_MODES}
+            ctx.evaluated(("user-code", desc, label, sc), nontrivial=True)
+            ctx.count("triples")
+            ctx.count("user_code_triples")
+            kinds = {dt: o.kind == "ok" for dt, o in outs.items()}
+            info = {"program": desc, "datum": repr(d)[:300], "outcomes": {dt.name: repr(o)[:300] for dt, o in outs.items()}}
+            if len(set(kinds.values())) > 1:
+                ctx.violation("load:success-disagreement:user-code-error", f"{desc} <- {label} {d!r:.200} [{'strict' if sc else 'lax'}]: "
+                              + "; ".join(f"{dt.name}={o!r:.120}" for dt, o in outs.items()), info)
+                continue
+            if all(kinds.values()):
+                if not all(strict_eq(outs[dt].value, outs[DebugTrail.ALL].value) for dt in DEBUG_MODES):
+                    ctx.violation("load:result-mismatch:user-code", f"{desc} <- {label}: " + "; ".join(f"{dt.name}={o!r:.120}" for dt, o in outs.items()), info)
+                continue
+            ctx.count("failing_triples")
+            # the single error of DISABLE / FIRST has a counterpart of the same class somewhere in what ALL raised
+            all_classes = {type(n) for n in _all_nodes(outs[DebugTrail.ALL].exc)}
+            for dt in (DebugTrail.DISABLE, DebugTrail.FIRST):
+                single = outs[dt].exc
+                leaves = [n for n in _all_nodes(single) if not getattr(n, "exceptions", None)]
+                if not any(type(n) in all_classes or (type(n).__name__ == "LoadError" and any(c.__name__ == "UnionLoadError" for c in all_classes)) for n in leaves):
+                    ctx.violation(f"load:error-without-counterpart-{dt.name}:user-code", f"{desc} <- {label}: {dt.name} raised {single!r:.150}, ALL raised {outs[DebugTrail.ALL].exc!r:.200}", info)
+            # whether user code crashed (a non-LoadError is involved) is the same in every mode
+            crashed = {dt: outs[dt].kind in ("exc", "impure") for dt in DEBUG_MODES}
+            if len(set(crashed.values())) > 1:
+                ctx.violation("load:unexpected-error-reported-as-load-error", f"{desc} <- {label}: " + "; ".join(f"{dt.name}={o!r:.120}" for dt, o in outs.items()), info)
 
 
 def _one(node, label):
